@@ -3,6 +3,7 @@
 package main
 
 import (
+	"encoding/json"
 	"fmt"
 
 	"github.com/Azbesciak/RealDecisionMaker/lib/logic/biases/fatigue"
@@ -79,6 +80,10 @@ func init() {
 		}()
 		for c := 0; c < n; c++ {
 			o.Cases++
+			if c%12 == 11 {
+				c17WholeRequest(o, r, c)
+				continue
+			}
 			bc := d1GenBiasCase(r, ro, 0.25)
 			cur := bc.cur
 			pr := d1GenFatigueProps(r)
@@ -198,4 +203,46 @@ func init() {
 			}
 		}
 	}
+}
+
+// c17WholeRequest: "the report carries the ratio and exactly the values handed on" must still be true of the
+// RESPONSE, i.e. after the biases that run after the fatigue: whole request [fatigue, X] through the real
+// pipeline (traced), the fatigue report in the final response against the state the fatigue handed on.
+func c17WholeRequest(o *Out, r *Rng, c int) {
+	q := genRequest(r, ReqOpts{MaxBiases: -1, Prob: ProbOpts{MinCrit: 2, MaxCrit: 4, MaxAlt: 5, AllConsidered: r.chance(0.6)}})
+	if q.Method == "owa" || q.Method == "choquetIntegral" {
+		q = genRequest(r, ReqOpts{MaxBiases: -1, Methods: []string{"weightedSum", "electreIII", "majorityHeuristic"}, Prob: ProbOpts{MinCrit: 2, MaxCrit: 4, MaxAlt: 5, AllConsidered: r.chance(0.6)}})
+	}
+	second := []string{"preferenceReversal", "criteriaOmission", "criteriaConcealment", "fatigue"}[r.Intn(4)]
+	p2 := biasPropsJSON(r, second, q.Problem)
+	switch second {
+	case "preferenceReversal":
+		p2["ratio"] = 1.0
+		delete(p2, "max")
+		delete(p2, "min")
+	case "criteriaOmission":
+		p2["ratio"], p2["max"] = 0.5, 1
+		delete(p2, "min")
+	}
+	q.Body["biases"] = []interface{}{J{"name": "fatigue", "props": d1GenFatigueProps(r)}, J{"name": second, "props": p2}}
+	js, _ := json.Marshal(q.Body)
+	var dm model.DecisionMaker
+	if json.Unmarshal(js, &dm) != nil {
+		return
+	}
+	tr := tracedDecide(&dm)
+	m := Meta{Case: c, Stage: "fatigue-report-in-response", Input: J{"request": q.Body}, Key: string(js)}
+	if tr.Err != "" || len(tr.Steps) < 2 || tr.Steps[0].Name != "fatigue" || tr.Steps[0].Out == nil || tr.Choice == nil {
+		o.count("whole-request:not-answered")
+		return
+	}
+	rep, ok := tr.Choice.Biases[0].(model.BiasParams).Props.(fatigue.FatigueResult)
+	if !ok {
+		return
+	}
+	handed := tr.Steps[0].Out
+	same := altsEqual(rep.ConsideredAlternatives, handed.Co) && altsEqual(rep.NotConsideredAlternatives, handed.Nc)
+	m.GoOut = J{"reported": rep, "handedOnConsidered": handed.Co, "handedOnNotConsidered": handed.Nc, "after": second}
+	o.Oracle(m, same, "the fatigue report in the response does not carry the values the fatigue handed on (changed by the bias after it)")
+	o.count("whole-request:after=" + second)
 }
